@@ -112,10 +112,53 @@ def run(ctx, rep):
                     if frag.strip() and not t.endswith(frag.rstrip()):
                         rep.violation("hunk-header-fragment", f"hunk header {t!r} does not carry the fragment {frag!r}", case)
                         break
+    # the real binary under --relative-paths: every header names the file as a user in the sub-directory would
+    eval_rel(ctx, rep, [rel_case(rng.getrandbits(48)) for _ in range(ctx.n(80, 2000))])
+
+
+REL_PATHS = ["sub/x.rs", "sub/dir/y.py", "other/z.md", "sub/with space.txt", "top.toml", "sub/naïve.rs"]
+REL_PREFIX = "sub/"
+
+
+def rel_case(seed):
+    """the same diff twice: with paths relative to the repository root, and with the paths a user in `sub/` expects"""
+    import os, random
+    shown = [os.path.relpath(p, REL_PREFIX) for p in REL_PATHS]
+    out = []
+    for paths in (REL_PATHS, shown):
+        rng = random.Random(seed)
+        lines, kinds = [], []
+        for _ in range(rng.randint(1, 4)):
+            f = M.gen_file(rng, kind=rng.choice([k for k in M.FILE_KINDS if k not in ("binary_noindex", "submodule")]), paths=paths)
+            lines += f["lines"]; kinds.append(f["kind"])
+        out.append(lines)
+    return dict(kind="relative-paths", seed=seed, kinds=kinds, input="\n".join(out[0]) + "\n", expected_input="\n".join(out[1]) + "\n")
+
+
+def eval_rel(ctx, rep, cases):
+    from ..core import parallel_map
+    def one(c):
+        a = ctx.run_delta(["--no-gitconfig", "--paging=never", "--relative-paths"], c["input"].encode(), env={"GIT_PREFIX": REL_PREFIX})
+        b = ctx.run_delta(["--no-gitconfig", "--paging=never"], c["expected_input"].encode(), env={"GIT_PREFIX": REL_PREFIX})
+        return a, b
+    for c, ((rc1, o1, e1), (rc2, o2, e2)) in zip(cases, parallel_map(one, cases)):
+        rep.case(key=("rel", c["input"]), nontrivial=True, sample=dict(level="relative-paths", kinds=c["kinds"]))
+        for k in c["kinds"]:
+            rep.count("relative-paths:kind:" + k)
+        if rc1 != 0 or rc2 != 0:
+            rep.violation("relative-paths:exit", f"exit {rc1}/{rc2}", c); continue
+        if o1 != o2:
+            l1, l2 = o1.split(b"\n"), o2.split(b"\n")
+            j = next((j for j, (x, y) in enumerate(zip(l1, l2)) if x != y), min(len(l1), len(l2)))
+            g = M.strip_ansi(l1[j]).decode("utf-8", "replace") if j < len(l1) else None
+            w = M.strip_ansi(l2[j]).decode("utf-8", "replace") if j < len(l2) else None
+            rep.violation("relative-paths:header-not-relative", f"output line {j}: shows {g!r}, a user in {REL_PREFIX} expects {w!r}", c)
 
 
 def replay(ctx, rep, obj):
     c = obj["case"]
+    if c.get("kind") == "relative-paths":
+        eval_rel(ctx, rep, [c]); return
     cfg = M.VCfg(**c["model_cfg"])
     lines = c["input"].split("\n")
     impl, model = M.observe(ctx, [(cfg, [l.encode() for l in lines])])[0]
